@@ -383,8 +383,21 @@ namespace nrf52_details
 
     bluetoe::details::uint128_t security_tool_box::create_passkey()
     {
+        // A passkey is a value in the range 000000 to 999999. Take 20 random bits and reject all
+        // values outside of that range, so that every passkey is equally likely.
+        std::uint32_t value;
+
+        do
+        {
+            value  = static_cast< std::uint32_t >( random_number8() );
+            value |= static_cast< std::uint32_t >( random_number8() ) << 8;
+            value |= static_cast< std::uint32_t >( random_number8() & 0x0f ) << 16;
+        } while ( value > 999999 );
+
         const bluetoe::details::uint128_t result{{
-            random_number8(), random_number8(), random_number8()
+            static_cast< std::uint8_t >( value & 0xff ),
+            static_cast< std::uint8_t >( ( value >> 8 ) & 0xff ),
+            static_cast< std::uint8_t >( value >> 16 )
         }};
 
         return result;
